@@ -25,13 +25,14 @@ pub async fn rename(
     let new_name = params.new_name;
     if let Some(cursor) = super::doc_cursor(doc_params, doctx).await? {
         if let Some(ident) = &cursor.ident() {
+            let on_context_name = cursor.is_context_name(ident);
             let DocumentCursor { doc, context, .. } = cursor;
             if let Some(entry) = context {
                 // Early return for int
                 if &ident.value == "int" {
                     return Ok(None);
                 }
-                let idents = find_referenced_identifiers(ident, &entry, &doc.ast, &doc.table);
+                let idents = find_referenced_identifiers(ident, on_context_name, &entry, &doc.ast, &doc.table);
                 // it seems like the original identifier is changed automatically,
                 // so it does not need to be added to `idents`
                 let text_edits = idents
@@ -80,9 +81,10 @@ pub async fn find(
     let uri = doc_params.text_document.uri.clone();
     if let Some(cursor) = super::doc_cursor(doc_params, doctx).await? {
         if let Some(ident) = &cursor.ident() {
+            let on_context_name = cursor.is_context_name(ident);
             let DocumentCursor { doc, context, .. } = cursor;
             if let Some(entry) = context {
-                let identifiers = find_referenced_identifiers(ident, &entry, &doc.ast, &doc.table);
+                let identifiers = find_referenced_identifiers(ident, on_context_name, &entry, &doc.ast, &doc.table);
                 let references = identifiers
                     .into_iter()
                     .map(|identifier| {
@@ -103,13 +105,15 @@ pub async fn find(
 
 fn find_referenced_identifiers(
     ident: &Ident,
+    on_context_name: bool,
     entry: &GlobalEntry,
     program: &Program,
     global_table: &GlobalTable,
 ) -> Vec<Identifier> {
     match entry {
         GlobalEntry::Procedure(p) => {
-            if p.name.value == ident.value {
+            if on_context_name {
+                // the name of the procedure itself is not shadowed by its locals
                 find_procs(&ident.value, program)
             } else {
                 let lookup_table = LookupTable {
